@@ -277,6 +277,9 @@ AUX_MOLS = {
     "H4_singlet": dict(xyz="H4", q=0, spin=0, frozen=None, uhf=False),
     "H4_triplet_fv3": dict(xyz="H4", q=0, spin=2, frozen=[3], uhf=False),
     "H4_triplet": dict(xyz="H4", q=0, spin=2, frozen=None, uhf=False),
+    # electrostatic embedding in MM point charges (the nuclei - charge term is part of the constant of the Hamiltonian)
+    "H4_qmmm_fv3": dict(xyz="H4", q=0, spin=0, frozen=[3], uhf=False, charges=[(-0.4, (0.0, 1.5, 1.0)), (0.25, (1.2, -0.8, 2.5))]),
+    "H4+_qmmm_uhf": dict(xyz="H4", q=1, spin=1, frozen=None, uhf=True, charges=[(-0.4, (0.0, 1.5, 1.0)), (0.25, (1.2, -0.8, 2.5))]),
     "H4+_doublet_fo0": dict(xyz="H4", q=1, spin=1, frozen=[0], uhf=False),
     "H4_interior_f1": dict(xyz="H4", q=0, spin=0, frozen=[1], uhf=False),
     "LiH_triplet_fo0": dict(xyz="LiH", q=0, spin=2, frozen=[0], uhf=False),
@@ -303,8 +306,12 @@ def h_aux_fci(env, key, mapping, utd):
     from openfermion import get_sparse_operator
     spec = AUX_MOLS[key]
     with shim.concrete_mode():
+        extra = {}
+        if spec.get("charges"):
+            from tangelo.toolboxes.molecular_computation.integral_solver_pyscf import IntegralSolverPySCFQMMM
+            extra["solver"] = IntegralSolverPySCFQMMM(list(spec["charges"]))
         m = SecondQuantizedMolecule(_XYZ[spec["xyz"]], q=spec["q"], spin=spec["spin"], basis=spec.get("basis", "sto-3g"), ecp=spec.get("ecp"),
-                                    frozen_orbitals=spec["frozen"], uhf=spec["uhf"])
+                                    frozen_orbitals=spec["frozen"], uhf=spec["uhf"], **extra)
         n, ne, sp = m.n_active_sos, m.n_active_electrons, m.active_spin
         qH = fermion_to_qubit_mapping(m.fermionic_hamiltonian, mapping, n_spinorbitals=n, n_electrons=ne, up_then_down=utd, spin=sp)
         nq = n - (2 if mapping.lower() == "scbk" else 0)
